@@ -28,6 +28,7 @@ UNIT = Unit(
     trusted=["PackageTypeEnv / GlobalTypeEnv / TraitEnv / Typer are partial shims (only the fields the two functions read); "
              "trait_impls is modelled by key membership",
              "resolve_trait_name and is_concrete_dyn_target are stubs without contracts (the clause does not depend on them)",
+             "`v.get_mut(i)` is rewritten to a bounds test + `&mut v[i]` (std semantics of get_mut assumed)",
              "derived Clone is an identical copy (trait VClone); str::to_string copies the text"],
     items=[
         Adt(file=T, kw="enum", name="Ty", rules=["attrs"]),
@@ -42,6 +43,14 @@ UNIT = Unit(
         Raw(path="contracts/dynvis.shim.rs"),
         Fn(file=T, name="get_ty", container="Expr", ret="r", rewrites=[CLONE],
            contract="ensures r == expr_ty(*self),", obligation="get_ty returns the carried type"),
+        Fn(file="crates/compiler/src/typer/results.rs", name="push_coercion", container="TypeckResultsBuilder",
+           rewrites=[(re.compile(r"if let Some\(slot\) = self\.results\.coercions\.get_mut\(expr\.idx as usize\) \{"),
+                      "if (expr.idx as usize) < self.results.coercions.len() { let slot = &mut self.results.coercions[expr.idx as usize];", 1)],
+           contract="""requires coercions_wf(*old(self)),
+        ensures coercions_wf(*final(self)), final(self).results.coercions@.len() == old(self).results.coercions@.len(),
+            forall|i: int| 0 <= i < old(self).results.coercions@.len() && i != expr.idx ==> final(self).results.coercions@[i] == old(self).results.coercions@[i],
+            (expr.idx as int) < old(self).results.coercions@.len() ==> final(self).results.coercions@[expr.idx as int]@ == seq![coercion],""",
+           obligation="recording a coercion keeps `at most one coercion per expression` (re-checking an expression must not stack coercions)"),
         Fn(file=C, name="has_visible_trait_impl", ret="r", attrs="#[verifier::loop_isolation(false)]",
            obligation="true exactly when an impl of the trait for the type is in the current package or an imported one",
            pre_rewrites=[(re.compile(r"genv\.deps\s*\.values\(\)\s*\.any\("), "let __dv = genv.deps.values_vec();\n    __dv.iter().any(", "*")],
@@ -51,7 +60,9 @@ UNIT = Unit(
         Fn(file=C, name="coerce_to_expected_dyn", container="Typer", ret="r",
            obligation="the value is wrapped into EToDyn only for a dyn expected type, with for_ty its own type, and only if an impl is visible",
            rewrites=[CLONE, ("matches!(expr.get_ty(), Ty::TDyn { .. })", "(match expr.get_ty() { Ty::TDyn { .. } => true, _ => false })")],
-           contract="""ensures r == expr || (r matches Expr::EToDyn { trait_name, for_ty, expr: inner, ty, astptr }
+           contract="""requires coercions_wf(old(self).results),
+        ensures coercions_wf(final(self).results),
+            r == expr || (r matches Expr::EToDyn { trait_name, for_ty, expr: inner, ty, astptr }
                 && *inner == expr && for_ty == expr_ty(expr) && ty == *expected && *expected is TDyn
                 && visible(*genv, trait_name.0@, for_ty)),"""),
     ],
